@@ -485,25 +485,50 @@ func (fr *Frame) binop(i *ssa.BinOp) *Val {
 			return arith(app("*", x.t, y.t))
 		}
 		fr.seedVal(x)
+		if fr.vc.nativeArith {
+			return arith(app("*", x.t, y.t))
+		}
 		// symbolic * symbolic: uninterpreted MUL with monotonicity lemmas (prelude)
 		fr.vc.assumed["products of two non-constants are an uninterpreted MUL constrained by monotonicity/sign lemmas of integer multiplication"] = true
 		return arith(app("MUL", x.t, y.t))
 	case token.QUO:
 		fr.oblige("P0", fr.ordName("P0/div-zero"), app("distinct", y.t, "0"))
-		if uns {
-			return mk(app("div", x.t, y.t))
+		if isLiteral(y.t) || fr.vc.nativeArith {
+			if uns {
+				return mk(app("div", x.t, y.t))
+			}
+			// Go truncates toward zero
+			q := app("div", app("abs", x.t), app("abs", y.t))
+			neg := app("distinct", app("<", x.t, "0"), app("<", y.t, "0"))
+			return mk(ite(neg, app("-", q), q))
 		}
-		// Go truncates toward zero
-		q := app("div", app("abs", x.t), app("abs", y.t))
-		neg := app("distinct", app("<", x.t, "0"), app("<", y.t, "0"))
-		return mk(ite(neg, app("-", q), q))
+		// symbolic divisor: uninterpreted DIVU on non-negative operands (lemmas in the prelude)
+		fr.vc.assumed["division/remainder by a non-constant are uninterpreted DIVU/MODU constrained by the Euclidean-division lemmas"] = true
+		if uns {
+			return mk(app("DIVU", x.t, y.t))
+		}
+		{
+			q := app("DIVU", app("abs", x.t), app("abs", y.t))
+			neg := app("distinct", app("<", x.t, "0"), app("<", y.t, "0"))
+			return mk(ite(and(app(">=", x.t, "0"), app(">", y.t, "0")), app("DIVU", x.t, y.t), ite(neg, app("-", q), q)))
+		}
 	case token.REM:
 		fr.oblige("P0", fr.ordName("P0/div-zero"), app("distinct", y.t, "0"))
-		if uns {
-			return mk(app("mod", x.t, y.t))
+		if isLiteral(y.t) || fr.vc.nativeArith {
+			if uns {
+				return mk(app("mod", x.t, y.t))
+			}
+			r := app("mod", app("abs", x.t), app("abs", y.t))
+			return mk(ite(app("<", x.t, "0"), app("-", r), r))
 		}
-		r := app("mod", app("abs", x.t), app("abs", y.t))
-		return mk(ite(app("<", x.t, "0"), app("-", r), r))
+		fr.vc.assumed["division/remainder by a non-constant are uninterpreted DIVU/MODU constrained by the Euclidean-division lemmas"] = true
+		if uns {
+			return mk(app("MODU", x.t, y.t))
+		}
+		{
+			r := app("MODU", app("abs", x.t), app("abs", y.t))
+			return mk(ite(and(app(">=", x.t, "0"), app(">", y.t, "0")), app("MODU", x.t, y.t), ite(app("<", x.t, "0"), app("-", r), r)))
+		}
 	case token.AND:
 		return fr.bitAnd(i, x, y, mk)
 	case token.OR:
